@@ -69,6 +69,9 @@ pub struct ExecRecord {
     pub getters: BTreeMap<String, u64>,
     pub writes_by_job: BTreeMap<String, u32>,
     pub rewriters: Vec<String>,
+    /// conflicting access pairs that nothing the scheduler was told orders: (item, job, op, job, op)
+    pub unordered_pairs: Vec<(String, String, String, String, String)>,
+    pub conflicting_pairs_checked: u64,
     /// items whose value may be dropped from memory after persisting without anyone noticing,
     /// if persistence is faithful: written, read only through get(), never scanned
     pub evictable: Vec<String>,
@@ -331,6 +334,49 @@ pub fn execute(plan: &Plan, sandbox: &Path, verbose: bool) -> ExecRecord {
     let mut coord_states: Vec<u64> = state.coord_states.iter().copied().collect();
     coord_states.sort();
 
+    // structural ordering check over this execution's accesses
+    let mut unordered_pairs = Vec::new();
+    let mut pairs_checked = 0u64;
+    if outcome.class == "ok" {
+        let order = crate::order::Order::build(&state.job_order, &state.job_info);
+        let op = |w: bool| if w { "write" } else { "read" }.to_string();
+        let mut seen: BTreeSet<(String, String, String)> = BTreeSet::new();
+        let mut items: Vec<(&String, &Vec<(String, bool)>)> = state.accesses.iter().collect();
+        items.sort();
+        for (item, accs) in items {
+            for (i, (a, aw)) in accs.iter().enumerate() {
+                for (b, bw) in accs.iter().skip(i + 1) {
+                    if a == b || !(*aw || *bw) || a == sim::MAIN || b == sim::MAIN {
+                        continue;
+                    }
+                    pairs_checked += 1;
+                    if !order.ordered(a, b) && seen.insert((item.clone(), a.clone().min(b.clone()), a.clone().max(b.clone()))) {
+                        unordered_pairs.push((item.clone(), a.clone(), op(*aw), b.clone(), op(*bw)));
+                    }
+                }
+            }
+        }
+        // whole-map scans against writers of any entry of that map
+        let mut tys: Vec<&&'static str> = state.ty_scanners.keys().collect();
+        tys.sort();
+        for ty in tys {
+            let scanners = &state.ty_scanners[*ty];
+            let Some(writers) = state.ty_writers.get(*ty) else { continue };
+            for s in scanners {
+                for w in writers {
+                    if s == w {
+                        continue;
+                    }
+                    pairs_checked += 1;
+                    let key = (format!("{ty}:*"), s.clone().min(w.clone()), s.clone().max(w.clone()));
+                    if !order.ordered(s, w) && seen.insert(key) {
+                        unordered_pairs.push((format!("{ty}:*"), w.clone(), "write".into(), s.clone(), "scan".into()));
+                    }
+                }
+            }
+        }
+    }
+
     ExecRecord {
         outcome,
         font_sha: font.as_ref().map(|b| sha256::hex(b)),
@@ -363,6 +409,8 @@ pub fn execute(plan: &Plan, sandbox: &Path, verbose: bool) -> ExecRecord {
         getters: state.getters.clone(),
         writes_by_job: state.writes_by_job.clone(),
         rewriters: state.rewriters.iter().cloned().collect(),
+        unordered_pairs,
+        conflicting_pairs_checked: pairs_checked,
         evictable: state
             .written_items
             .iter()
